@@ -38,8 +38,8 @@ const (
 func newTokenWorld() *vWorld {
 	w := newWorld(vWorldOpts{CertCfg: []string{"password"}, WebUICfg: []string{"password"}, CLITokens: true})
 	w.st.Config.OpenIDConnectIDP.Client = []OpenIDConnectClientConfig{
-		{ClientID: vClientA, ClientSecret: vSecretA, AllowedRedirectDomains: []string{"example.org"}},
-		{ClientID: vClientB, ClientSecret: "", AllowedRedirectDomains: []string{"example.org"}},
+		{ClientID: vClientA, ClientSecret: vSecretA, AllowedRedirectDomains: []string{"example.org"}, AllowClientChosenAudiences: true},
+		{ClientID: vClientB, ClientSecret: "", AllowedRedirectDomains: []string{"example.org"}, AllowClientChosenAudiences: true},
 	}
 	// routes depending on configuration are registered at mux construction: rebuild
 	w.rawMux = verifServiceMux(w.st)
@@ -54,8 +54,15 @@ func vS256(v string) string {
 
 // authorize runs the real authorization endpoint as `user` and returns the code.
 func (w *vWorld) authorize(user, client, chal string) (string, vResp) {
+	return w.authorizeAud(user, client, chal, "")
+}
+
+func (w *vWorld) authorizeAud(user, client, chal, audience string) (string, vResp) {
 	form := url.Values{"response_type": {"code"}, "client_id": {client}, "scope": {"openid"}, "redirect_uri": {vRedirect},
 		"nonce": {vNonce}, "state": {"st"}}
+	if audience != "" {
+		form.Set("audience", audience)
+	}
 	switch chal {
 	case "S256":
 		form.Set("code_challenge", vS256(vVerifier))
@@ -400,7 +407,12 @@ func runC12(t *testing.T, cases []map[string]interface{}, ev *vEvents) {
 	for i, c := range cases {
 		chal := vStr(c, "chal")
 		authTime := time.Now().Unix()
-		code, ar := w.authorize("alice", clientID[vStr(c, "codeclient")], chal)
+		aud := ""
+		if vStr(c, "audparam") == "allowed" {
+			aud = "https://api.example.org"
+		}
+		code, ar := w.authorizeAud("alice", clientID[vStr(c, "codeclient")], chal, aud)
+		browserCode := code // what travels through the user's browser
 		if code == "" {
 			panic(fmt.Sprintf("verif harness: authorize failed: %d %s", ar.Status, ar.Body))
 		}
@@ -489,7 +501,30 @@ func runC12(t *testing.T, cases []map[string]interface{}, ev *vEvents) {
 				tk["userinfo"] = ui.Subject
 			}
 		}
+		// "nothing else does": artefacts other than a released access token presented to userinfo
+		leak := []string{}
+		others := map[string]string{"code": browserCode, "cookie": w.mintCookie("alice", AuthTypePassword|AuthTypeU2F, 0)}
+		if tr.IDToken != "" {
+			others["idtoken"] = tr.IDToken
+		}
+		for _, kind := range []string{"code", "cookie", "idtoken"} {
+			v, ok := others[kind]
+			if !ok {
+				continue
+			}
+			for _, via := range []string{"header", "form"} {
+				q := vReq{Method: "GET", Path: idpOpenIDCUserinfoPath, Headers: map[string]string{"Authorization": "Bearer " + v}}
+				if via == "form" {
+					q = vReq{Method: "POST", Path: idpOpenIDCUserinfoPath, Form: url.Values{"access_token": {v}}}
+				}
+				ur := w.Do(q)
+				var ui openidConnectUserInfo
+				if ur.Status == 200 && json.Unmarshal(ur.Body, &ui) == nil && ui.Subject != "" {
+					leak = append(leak, kind+"/"+via)
+				}
+			}
+		}
 		ev.Emit(map[string]interface{}{"i": i, "ev": "Redeem", "case": c,
-			"out": map[string]interface{}{"released": released, "panic": r.Panic != "", "status": r.Status, "tk": tk}})
+			"out": map[string]interface{}{"released": released, "panic": r.Panic != "", "status": r.Status, "tk": tk, "leak": leak}})
 	}
 }
